@@ -423,12 +423,11 @@ Proof.
     assert (Hk : cont_at (mkPst (cores s ++ [mkCore Pending []]) (conts s ++ [c]) (datas s) [] (plog s)) k = c).
     { unfold cont_at. cbn [conts]. unfold k. rewrite app_nth2 by lia. rewrite Nat.sub_diag. reflexivity. }
     rewrite Hk. cbn [rc Nat.leb ck c]. unfold c at 1. cbn [ck].
-    destruct vr; cbn [settle push_tasks set_state add_log set_cont cores conts datas stack plog core_at].
-    + (* value-returning: the derived promise is new, nobody is attached to it *)
-      assert (Hd : creqs (nth dst (cores s ++ [mkCore Pending []]) (mkCore Pending [])) = []).
-      { unfold dst. rewrite app_nth2 by lia. rewrite Nat.sub_diag. reflexivity. }
-      rewrite core_at_log_cont. unfold core_at at 1. cbn [cores]. rewrite Hd. cbn [map app drain stack plog]. reflexivity.
-    + cbn [drain stack]. reflexivity.
+    (* value-returning or not: the derived promise is new, nobody is attached to it *)
+    assert (Hd : creqs (nth dst (cores s ++ [mkCore Pending []]) (mkCore Pending [])) = []).
+    { unfold dst. rewrite app_nth2 by lia. rewrite Nat.sub_diag. reflexivity. }
+    destruct vr; cbn [settle push_tasks set_state add_log set_cont cores conts datas stack plog core_at];
+      rewrite core_at_log_cont; unfold core_at at 1; cbn [cores]; rewrite Hd; cbn [map app drain stack plog]; reflexivity.
   - assert (Hr : src < length (cores s)) by (apply settled_in_range; rewrite Ecs; discriminate).
     unfold attach_start. cbn [conts new_core cores datas stack plog].
     assert (Hc : cs (core_at (mkPst (cores s ++ [mkCore Pending []]) (conts s ++ [c]) (datas s) (stack s) (plog s)) src) = Rejected e).
